@@ -321,6 +321,29 @@ def child(case):
         stall['on'] = False
         if not await srv.wait_caught_up(900):
             out['inconclusive'].append('no catch-up after the forced reorg')
+        # requests crossing the chain end while a new block has been processed in memory but is not flushed yet: the daemon
+        # poll that precedes the catch-up flush is answered slowly
+        H2 = srv.db.state.height
+        hold = {'on': True}
+
+        def slow_poll(info):
+            if hold['on'] and info['method'] == 'getblockcount' and srv.bp.state.height > srv.db.state.height:
+                return {'latency': 40}
+            return None
+        srv.sim.script = slow_poll
+        w.tip = w.make_block(w.tip, ntx=1)
+        w.bump()
+        if await srv.wait_until(lambda: srv.bp.state.height == H2 + 1 and srv.db.state.height == H2, 200):
+            bump('unflushed_block_windows_opened')
+            for start in (H2 - 8, H2 - 2, H2 - 1, H2, H2 + 1):
+                for count in (1, 2, 3, 4, 12):
+                    await headers_case(start, count, 0, CAP, H=H2)
+                    await headers_case(start, count, H2, CAP, H=H2)
+                    bump('headers_requests_with_an_unflushed_block_in_memory', 2)
+        hold['on'] = False
+        srv.sim.script = None
+        if not await srv.wait_caught_up(900):
+            out['inconclusive'].append('no catch-up after the unflushed-block window')
         exc = srv.check_task()
         if exc:
             viol('server-task/exception', exc.strip().splitlines()[-1][:200], exc)
@@ -346,7 +369,7 @@ def run(tier, seed, replay=None):
     for name, minimum in {'history_requests': 50, 'histories_answered_in_full': 15, 'histories_refused_too_large': 15, 'refused_cached': 8,
                           'subscriptions_refused': 8, 'subscriptions_accepted': 8, 'over_limit_subscriptions_dropped': 8,
                           'overlapping_requests_judged': 60, 'pipelined_batches': 6, 'history_reads_overlapped_by_an_invalidation': 3,
-                          'headers_requests': 2000, 'headers_refused_bad_checkpoint': 20, 'headers_requests_in_reorg_window': 100}.items():
+                          'headers_requests': 2000, 'headers_requests_with_an_unflushed_block_in_memory': 100, 'headers_refused_bad_checkpoint': 20, 'headers_requests_in_reorg_window': 100}.items():
         rep.floor(name, c[name], minimum)
     return rep.finish(
         rule='per MAX_SEND setting (350000, 350064, 350163 -> derived limits 3535/3536/3537; 400000; one below the 350000 floor) a chain '
@@ -359,7 +382,8 @@ def run(tier, seed, replay=None):
              'with the history reads held while a mempool notification (non-empty touched set) is processed: every answer must be the '
              'refusal and no subscription may be kept. Headers: '
              '(start,count,cp_height) triples around genesis, the 2016 cap and the chain end, plus dense sweeps with the cap lowered '
-             'to 1/2/7 through the class attribute, and requests crossing the chain end inside the window of a forced reorg (blocks undone, '
+             'to 1/2/7 through the class attribute, requests crossing the chain end while a block is processed in memory but not flushed (slow '
+             'daemon poll), and requests crossing the chain end inside the window of a forced reorg (blocks undone, '
              're-advance held back by a slow daemon: the header file holds orphaned headers beyond the tip): count == min(requested, max, '
              'available), hex length, bytes, max. distinct = '
              '(MAX_SEND, length - limit, fresh/cached) + (cap, start - height, count - cap, cp given)',
